@@ -578,6 +578,21 @@ def check_wake_sites(ctx):
             reason = primary.verdict[1]
             ctx.ob("R04.5", f"{owner}|heuristic-wake|{reason}", False, primary.body.loc(primary.b),
                    f"{primary.verdict[2]}: " + "; ".join(WHY.get(r, r) for r in reason.split("+")))
+            # a listed heuristic entry point is not a free pass: whatever it wakes today (which stream, for which queue length and MAX_STREAMS -- evaluated from its
+            # guards and targets, so refactor-proof) it must keep waking.  Waking MORE is fine; a wake that disappears for some (length, MAX_STREAMS) -- the
+            # `len == MAX_STREAMS + 1` work-around narrowed to a special case, a guard tightened -- turns a rare lost wake-up into a common one and is a new violation.
+            import runner as _runner
+            base = next((k_.get("wake_table") for k_ in _runner.load_known().get("findings", []) if k_.get("key") == f"R04.5|{owner}|heuristic-wake|{reason}"), None)
+            if base is not None:
+                cur = entry_wake_table(fx, ss)
+                if cur is None:
+                    ctx.ob("R04.5", f"{owner}|heuristic-wake-still-evaluable", False, primary.body.loc(primary.b), "the wake decisions of this listed entry point can no longer be evaluated over (length, MAX_STREAMS)")
+                else:
+                    curj = table_to_json(cur)
+                    lost = [(k_, sorted(set(v_) - set(curj.get(k_, [])))) for k_, v_ in base.items() if not set(v_) <= set(curj.get(k_, [])) and "all" not in curj.get(k_, [])]
+                    ctx.ob("R04.5", f"{owner}|heuristic-wake-not-weakened", not lost, primary.body.loc(primary.b),
+                           "wakes at least what the listed finding's entry point wakes, for every queue length and MAX_STREAMS" if not lost else
+                           f"for (MAX_STREAMS, queue length before) = ({lost[0][0]}) stream(s) {lost[0][1]} used to be woken and no longer are ({len(lost)} such cases): the listed heuristic got weaker")
         else:
             # only wakes without a length condition: sound (like class A) only if one of them follows a SUCCESSFUL publication -- the extra wake issued before
             # retrying a full queue sits on the failure edge and tells the consumer nothing about the event that is published later
@@ -742,6 +757,55 @@ def _classify(ctx, fx, s, tag):
     elif not exact: why.append({"reserve": "stale-length@reservation", "publish": "stale-length@reservation", "presend": "stale-length@pre-send"}.get(src, "inexact-length"))
     if fires and not tgt0: why.append("target-may-not-exist")
     return ("C", "+".join(why), desc)
+
+
+def site_wake_table(fx, s):
+    """{(MAX_STREAMS, true queue length before the publication): set of targets woken} for one wake site; None when the site is not evaluable.  Targets: stream index,
+    "own" (the listener whose queue was published to) or "all"."""
+    listener = is_listener_id(s.target) or s.target == ALL
+    at = []
+    for (op, l, r, pol) in s.conds:
+        if sentinel_test(l, r): continue
+        atoms(l, at); atoms(r, at)
+    if not listener: atoms(s.target, at)
+    at = [a for a in at if a[0] not in ("fn",)]
+    if len(at) > 1: return None
+    tbl = {}
+    try:
+        if not at:
+            for m in MS:
+                for ln in range(0, m + 5):
+                    t = "all" if s.target == ALL else ("own" if listener else ev(s.target, {}, m))
+                    tbl.setdefault((m, ln), set()).add(t)
+            return tbl
+        L = at[0]
+        src, trans = length_source(fx, s, L)
+        if src is None: return None
+        for m in MS:
+            for Lv in range(trans if src in ("reserve", "publish", "post") else 0, m + 6):
+                good = True
+                for (op, l, r, pol) in s.conds:
+                    if sentinel_test(l, r): continue
+                    if bool(ev(("bin", op, l, r), {L: Lv}, m)) != pol: good = False; break
+                if not good: continue
+                t = "all" if s.target == ALL else ("own" if listener else ev(s.target, {L: Lv}, m))
+                tbl.setdefault((m, Lv - trans), set()).add(t)
+    except NoVal:
+        return None
+    return tbl
+
+
+def entry_wake_table(fx, ss):
+    out = {}
+    for s in ss:
+        t = site_wake_table(fx, s)
+        if t is None: return None
+        for k, v in t.items(): out.setdefault(k, set()).update(v)
+    return out
+
+
+def table_to_json(tbl):
+    return {f"{m},{ln}": sorted(map(str, v)) for (m, ln), v in sorted(tbl.items())}
 
 
 _sweep_done = set()
